@@ -112,24 +112,40 @@ def build_and_eval(src, envs):
     """the implementation: a model with the formula as a general propensity, an assignment rule right-hand
     side and a parsed growth law; returns per env (propensity, volume propensity, parsed term evaluate)."""
     from bioscrape.types import Model
-    M = Model(species=list(SPECIES) + ["Z"], parameters={p: 1.0 for p in PARAMS},
+    pars = {p: 1.0 for p in PARAMS}
+    pars.update({"pz_rule": 1.0, "pw_rule": 1.0})
+    M = Model(species=list(SPECIES) + ["Z", "W"], parameters=pars,
               reactions=[([], ["A"], "general", {"rate": src})],
-              rules=[("assignment", {"equation": "Z = " + src})],
+              rules=[("assignment", {"equation": "Z = " + src}), ("assignment", {"equation": "pz_rule = " + src}),
+                     ("ode", {"equation": src, "target": "W"}), ("ode", {"equation": src, "target": "pw_rule"})],
               initial_condition_dict={s: 1.0 for s in SPECIES})
     prop = M.get_propensities()[0]
     term = M.parse_general_expression(src)
-    rule = M.__getstate__()[6][0]
+    rules = M.__getstate__()[6]
     sl, pl = M.get_species_list(), M.get_param_list()
     out = []
+    DT = 0.5
     for env in envs:
         x = np.array([env.get(s, 0.0) for s in sl], dtype=float)
-        p = np.array([env[q] for q in pl], dtype=float)
+        p = np.array([env.get(q, 1.0) for q in pl], dtype=float)
         a = prop.py_get_propensity(x.copy(), p, env["t"])
         av = prop.py_get_volume_propensity(x.copy(), p, env["volume"], env["t"])
         g = term.py_evaluate(x.copy(), p, env["t"])
         xr = x.copy()
-        rule.py_execute_rule(xr, p.copy(), env["t"], 0.01, True)
-        out.append((float(a), float(av), float(g), float(xr[sl.index("Z")]), x, p))
+        rules[0].py_execute_rule(xr, p.copy(), env["t"], 0.01, True)
+        # the four rule forms (assignment / ode, species / parameter target) on the plain and on the volume path
+        extra = {}
+        for path in ("plain", "volume"):
+            for ri, (kind, target, is_param) in enumerate((("assignment", "Z", False), ("assignment", "pz_rule", True), ("ode", "W", False), ("ode", "pw_rule", True))):
+                x2, p2 = x.copy(), p.copy()
+                if path == "plain":
+                    rules[ri].py_execute_rule(x2, p2, env["t"], DT, True)
+                else:
+                    rules[ri].py_execute_volume_rule(x2, p2, env["volume"], env["t"], DT, True)
+                new = p2[pl.index(target)] if is_param else x2[sl.index(target)]
+                old = p[pl.index(target)] if is_param else x[sl.index(target)]
+                extra[(path, kind, "parameter" if is_param else "species")] = float(new) if kind == "assignment" else float((new - old) / DT)
+        out.append((float(a), float(av), float(g), float(xr[sl.index("Z")]), x, p, extra))
     return M, prop, out
 
 
@@ -158,10 +174,15 @@ def one_expr(ctx, rng, depth):
     const = all(abs(w[1] - wants[0][1]) < 1e-15 for w in wants)
     jobs = []
     sl, pl = M.get_species_list(), M.get_param_list()
-    for env, (v1, vv), (a, av, g, z, x, p) in zip(envs, wants, got):
+    for env, (v1, vv), (a, av, g, z, x, p, extra) in zip(envs, wants, got):
         ctx.evaluated()
-        for what, gotv, want in (("propensity", a, v1), ("volume propensity", av, vv), ("parsed expression", g, v1), ("assignment rule", z, v1)):
-            if relerr(gotv, want) > 1e-9 and abs(gotv - want) > 1e-9:
+        checks = [("propensity", a, v1), ("volume propensity", av, vv), ("parsed expression", g, v1), ("assignment rule", z, v1)]
+        for (path, kind, tgt), val in extra.items():
+            # an ode rule is read back as (new - old)/dt: allow for the rounding of that difference
+            checks.append(("%s rule with a %s target on the %s path" % (kind, tgt, path), val, v1 if path == "plain" else vv))
+        for what, gotv, want in checks:
+            slack = 1e-9 if "ode rule" not in what else 1e-9 * max(1.0, abs(want)) + 1e-12
+            if relerr(gotv, want) > 1e-9 and abs(gotv - want) > slack:
                 ctx.violation("value/" + "+".join(sorted(ops))[:60], "%s of '%s' evaluates to %r, the written formula means %r" % (what, src, gotv, want),
                               {"src": src, "env": env, "what": what, "implementation": gotv, "meaning": want})
                 return
